@@ -20,12 +20,12 @@ ENGINE = 'A'
 TECHNIQUE = ('explicit-state exploration of the real inspectors over all '
              'chunkings of builder-made images; declared size from the layout '
              'builder as reference, checked in every reachable state')
-LEVEL_TEXT = ('For every (size, layout) of the enumerated family the real '
-              'inspector (and the InspectWrapper-selected inspector) is driven '
-              'through all subsets of the cut candidates; every terminal state '
-              'must report exactly the size the builder wrote, and every '
-              'intermediate state 0 before / the size after the carrying '
-              'structure ends.')
+LEVEL_TEXT = ('For every (size, layout) of the enumerated family the real inspector (and the '
+'InspectWrapper-selected inspector) is driven through all subsets of the cut '
+'candidates; every terminal state must report exactly the size the builder '
+'wrote, and every intermediate state 0 before / the size after the carrying '
+'structure ends. Streams with structures beyond 4 GiB are delivered piecewise '
+'(two chunk sizes) without being materialised.')
 LEVEL_NOTE = ('Trusted: the layout builders (vlib/img/build.py), written from '
               'the format documents. Sizes are boundary values and seed '
               'values, not all 2^64; layouts are the listed ones.')
